@@ -593,25 +593,27 @@ def filterR {α : Type} (f : α → R Bool) : List α → R (List α)
   | [] => .ok []
   | x :: xs => (f x).bind fun b => (filterR f xs).map fun r => if b then x :: r else r
 
-mutual
-def findEdgeC (eid : Eid) : Component → Option (IREdge ⊕ Fold)
-  | .mk _ _ es fs _ =>
-    match es.find? (·.eid == eid) with
-    | some e => some (.inl e)
-    | none => findEdgeF eid fs
-def findEdgeF (eid : Eid) : List Fold → Option (IREdge ⊕ Fold)
+/-- the Eids of the edges and folds of one component -/
+def Component.eids (c : Component) : List Eid := c.edges.map (·.eid) ++ c.folds.map (·.eid)
+
+/-- all Eids of a query, component by component -/
+def allEids (ir : IRQuery) : List Eid := (subComps ir.rootComponent).flatMap Component.eids
+
+/-- `indexed_query.eids[&eid]` (`IndexedQuery` refuses an IR in which an Eid occurs twice, so the
+search order never matters on accepted queries). -/
+def findEdgeIn (eid : Eid) : List Component → Option (IREdge ⊕ Fold)
   | [] => none
-  | .mk e f t n ps c im fo po :: rest =>
-    if e == eid then some (.inr (.mk e f t n ps c im fo po))
-    else
-      match findEdgeC eid c with
-      | some r => some r
-      | none => findEdgeF eid rest
-end
+  | c :: rest =>
+    match c.edges.find? (·.eid == eid) with
+    | some e => some (.inl e)
+    | none =>
+      match c.folds.find? (·.eid == eid) with
+      | some f => some (.inr f)
+      | none => findEdgeIn eid rest
 
 /-- `indexed_query.eids[&eid]` followed by `ResolveEdgeInfo::destination()`. -/
 def destinationOf (ir : IRQuery) (eid : Eid) : Option VInfo :=
-  match findEdgeC eid ir.rootComponent with
+  match findEdgeIn eid (subComps ir.rootComponent) with
   | some (.inl e) => some (VInfo.ofEdge e)
   | some (.inr f) => some (VInfo.ofFold f)
   | none => none
